@@ -4,15 +4,21 @@ pub mod anchor_shim {
 use vstd::prelude::*;
 use crate::errors::ErrorCode;
 //@ assume anchor_lang shim: Pubkey is 32 opaque bytes with structural equality and an uninterpreted total order; anchor Error carries only the ErrorCode; Account<T> derefs to T
-#[derive(Clone, Copy, PartialEq, Eq, Structural)]
+#[derive(Clone, Copy, Eq)]
 pub struct Pubkey(pub [u8; 32]);
+impl vstd::std_specs::cmp::PartialEqSpecImpl for Pubkey {
+    open spec fn obeys_eq_spec() -> bool { true }
+    open spec fn eq_spec(&self, other: &Pubkey) -> bool { *self == *other }
+}
+impl PartialEq for Pubkey {
+    #[verifier::external_body]
+    fn eq(&self, other: &Pubkey) -> (r: bool) { self.0 == other.0 }
+}
 pub uninterp spec fn pk_lt(a: Pubkey, b: Pubkey) -> bool;
 pub uninterp spec fn pk_default() -> Pubkey;
 impl Pubkey {
     #[verifier::external_body]
     pub fn ne(&self, other: &Pubkey) -> (r: bool) ensures r == (*self != *other) { unimplemented!() }
-    #[verifier::external_body]
-    pub fn eq(&self, other: &Pubkey) -> (r: bool) ensures r == (*self == *other) { unimplemented!() }
     #[verifier::external_body]
     pub fn ge(&self, other: &Pubkey) -> (r: bool) ensures r == !pk_lt(*self, *other) { unimplemented!() }
     #[verifier::external_body]
